@@ -1,9 +1,9 @@
 // unit `blockstore` -- the READ side and the APPEND side of the block store.
 //   yrs/src/block_store.rs   ClientBlockList, BlockStore
-//   yrs/src/store.rs         Store::write_blocks_from
+//   yrs/src/store.rs         Store::write_blocks_from, Store::write_blocks_to
 //   yrs/src/block.rs         Block::{clock_start, next_clock, clock_range, len, id, range, is_skip, as_slice}, BlockRef,
 //                            TransactionMut::{integrate_skip, integrate_gc} (two call sites of push)
-//   yrs/src/slice.rs         BlockSlice::{trim_start, encode}, ItemSlice::{new, from, len, trim_start}
+//   yrs/src/slice.rs         BlockSlice::{trim_start, trim_end, clock_end, encode}, ItemSlice::{new, from, len, trim_start, trim_end, clock_end}
 //
 // ABSTRACTION  a client's list is the sequence of its blocks (`self.inner@ : Seq<Block>`), a block is read through
 //   `start()`, `blen()`, `next() = start + blen`, `skip()`, `spec_client()`; the store is `clients@ : Map<ClientID,
@@ -22,20 +22,17 @@
 //                  clocks of the Skip blocks.            BlockStore::wf() = lists_wf && skips_wf.
 //
 // FUNCTIONS UNDER CONTRACT (whole real bodies unless marked)
-//   ClientBlockList::find_index   requires list_wf and `fi_safe(list, clock)`, THE WEAKEST PRECONDITION derived from the code
-//                                 (below).  ensures: Some(i) iff first.start <= clock < last.next (`in_list`), and then
-//                                 i < len && list[i].start <= clock < list[i].next; no out-of-bounds index, no overflow /
-//                                 underflow / division by zero, termination.  `lemma_in_list_safe`: in_list ==> fi_safe.
-//     fi_safe(s, clock) :=  clock == last.start                                    (the early return)
-//                        || first.start <= clock                                   (else `right = mid - 1` underflows at mid == 0)
-//                           && ( clock <= end                                      (end = last clock of the list)
-//                             || end != 0                                          (else `clock / end` divides by zero)
-//                                && (right == 0 || clock < 2 * end) )              (else the first probe (clock/end)*right > right)
+//   ClientBlockList::find_index   TOTAL (after the repair ee1ac52).  requires: the list is EMPTY or list_wf -- nothing about the
+//                                 clock.  ensures, for EVERY clock: Some(i) iff first.start <= clock < last.next (`in_list`;
+//                                 false for the empty list), and then i < len && list[i].start <= clock < list[i].next; no
+//                                 out-of-bounds index, no overflow / underflow / division by zero, termination.  (Without
+//                                 list_wf a non-empty list can make `Block::clock_range` itself overflow: `clock + len - 1`.)
 //     (`right as u32` may truncate for lists longer than u32::MAX; harmless: the probe only gets smaller.  `(left+right)/2`
 //      needs len <= usize::MAX/2: trusted allocation bound, as in unit ids.)
-//   lifted steps (R18 regions of the same text, contracts of their own): `find_index_first_probe` (the interpolation:
-//     result <= right), `find_index_step` (the loop body: answers with the containing block, or narrows [left,right]
-//     strictly without dropping a block that contains the clock).
+//   lifted steps (R18 regions of the same text, contracts of their own): `find_index_first_probe` (the interpolation, reached
+//     with clock <= end != 0: result <= right), `find_index_step` (the loop body: ends the search with the containing block,
+//     or with None for a clock below the first block, or narrows [left,right] strictly without dropping a block that
+//     contains the clock).
 //   ClientBlockList::{last, get, len, clock, get_block, insert, push}   exact w.r.t. the sequence; clock == last.next (0 if empty)
 //   BlockStore::is_empty          r == (no client)
 //   BlockStore::get_client        Some(list) iff the client is known
@@ -43,7 +40,7 @@
 //   BlockStore::contains          r <==> id.clock < get_clock(id.client)
 //   BlockStore::is_missing        r <==> id.clock >= get_clock(id.client) || skips has the id.   `lemma_missing_meaning`: for
 //                                 a list that starts at 0: NOT missing <==> the id is integrated (carried).
-//   BlockStore::get_block         FINDING F-BS1 (one obligation EXPECTED TO FAIL, see below); given the call, the result is exact.
+//   BlockStore::get_block         for EVERY id: Some(block) iff the id lies in the client's list, and then the block contains it.
 //   BlockStore::get_state_vector  dom == clients; per client `first_gap` = the start of the first Skip block, else the clock
 //                                 after the last block.  `lemma_first_gap_meaning`: every clock of the list below it is
 //                                 integrated, the gap itself is not.  Lifted step `state_vector_skip_entry`.
@@ -56,7 +53,7 @@
 //                                 `lemma_push_meaning`: the block's clocks become integrated (or Skip clocks), every other
 //                                 clock keeps its status.  Lifted arm `push_into_skip` ("this replaces an integrated skip").
 //   TransactionMut::integrate_skip   (call site) establishes `skips_pre`, keeps wf, appends the Skip block.
-//   TransactionMut::integrate_gc     (call site) FINDING F-BS2 (one obligation EXPECTED TO FAIL, see below).
+//   TransactionMut::integrate_gc     (call site) keeps wf; requires the trimmed range not empty (justified below, was F-BS2).
 //   BlockStore::known_state       wf result; has (c, k) <==> ss lists c && c known && 0 <= k < get_clock(c) && !skips has (c, k);
 //                                 for lists that start at 0 these are exactly the integrated ids (`lemma_missing_meaning`).
 //                                 Lifted steps `known_state_client`, `known_state_remove_skip`.
@@ -70,17 +67,24 @@
 //                                 Skips) and the reader's running clock re-derives every block's start;  `lemma_listed_iff`:
 //                                 a client is written iff its first gap lies above the remote clock (or the remote does not
 //                                 list it).
+//   Store::write_blocks_to        (the snapshot encoder of C13.)  requires wf, items_ok, `lists_from_zero` (every list starts at
+//                                 clock 0: the function writes Var(0) as first clock and looks up `clock - 1`) and, DOMAIN
+//                                 RESTRICTION, clock(c) < u32::MAX (`blocks.clock() + 1` is unchecked).  There is a listing d
+//                                 with `snap_listing(d, clients, sv)`: exactly the pairs (c, k) with c listed by the snapshot
+//                                 AND known to the store, k = min(snapshot clock, first_gap(c)) > 0, highest client first; the
+//                                 appended tokens are `emit_all_to`: Var(#d), then per (c, k): Var(last + 1) Client(c) Var(0)
+//                                 block_tokens(b, 0) for b in blocks[0 .. last], block_tokens_to(blocks[last], last.next - k),
+//                                 last = the index of the block that contains k - 1.  `lemma_section_to_exact`: the section
+//                                 writes EXACTLY the clocks 0 .. k-1 (every id below the clamped snapshot clock, nothing at or
+//                                 above), all of them integrated -- no Skip block is written.  Lifted steps
+//                                 `write_blocks_to_entry` (clamping, the `clock > 0` guard), `write_blocks_to_section`.
 //   Block / BlockRange / Item / ID / BlockRef / BlockSlice / ItemSlice / StateVector accessors used by the above.
 //
 // PRECONDITIONS DERIVED FROM CALL SITES
-//   find_index(clock) in range (hence fi_safe):  push (block_store.rs:315: the block lies inside a Skip block, see push_pos),
-//     split_block (:463, id of an existing item), write_blocks_from (store.rs:234: remote clock < first_gap <= clock(), maxed
-//     with first.start -- PROVED here), materialize (store.rs:315/340), apply_delete (transaction.rs:648, `clock < state`),
-//     commit (transaction.rs:1070/1081, ids of this transaction's blocks), try_squash_with (id_set.rs:487), BlockSliceIter
-//     (ids.rs:842, `range.start < client_end_clock`), gc.rs:87, update.rs:442/449/480 (after `is_missing`), block.rs redo /
-//     resolve_conflict / block_iter.rs (ids of existing items), sticky_index.rs:155 get_offset (`get_clock(..) <= clock` guard).
-//     NOT guarded: see F-BS1.
-//   push: block.ok(): Items have len >= 1 (Item::new), integrate_skip gets a non-empty hole; NOT for GC, see F-BS2.
+//   find_index: none any more (total).  Callers that `unwrap()` the result are in range: push (block_store.rs: the block lies
+//     inside a Skip block, see push_pos -- PROVED here), write_blocks_from / write_blocks_to (PROVED here), materialize.
+//   push: block.ok(): Items have len >= 1 (Item::new), integrate_skip gets a non-empty hole, and `Update::decode_block` returns
+//     Ok(None) for a GC / Skip block with `len == 0` (repair 86c3405), so integrate_gc gets a non-empty range (was F-BS2).
 //     push_pos: `apply_update` first excludes `known_state` from the update (transaction.rs:826: what stays lies at/above
 //     the store clock or inside one skips range, split at the range borders), `Update::integrate` pushes a Skip for
 //     [local_clock, id.clock) before a block that lies beyond the clock (update.rs:351) and then the block itself; a remaining
@@ -88,34 +92,19 @@
 //     followed at once by a non-Skip block; a split leaves (Skip, block, Skip)) -- an argument about the callers, NOT proved here.
 //     Local blocks (`create_item`) start at get_local_state(): appended.
 //
-// FINDINGS (reproducer: units/blockstore/repro/main.rs -- a throw-away cargo project with `yrs = { path = "/repo/yrs",
-//   features = ["weak"] }`, `[workspace]`, offline: copy /verif/witness/Cargo.lock next to it; run with and without --release)
-//  F-BS1  find_index panics for clocks OUTSIDE the list, and five call paths reach it unguarded through public API.
-//         obligation (expected to fail): blockstore::BlockStore.get_block::pre [fi_safe(..)] -- `BlockStore::get_block(&ID)`
-//         promises "Returns `None` if not such block could be found" for every id.
-//         P1  list == [(clock 0, len 1)] and clock != 0:  `clock / end` with end == 0  -> "attempt to divide by zero" (every profile)
-//         P2  >= 2 blocks and clock >= 2 * end:  first probe (clock/end)*right > right -> "index out of bounds" (every profile),
-//             e.g. list [(0,1),(1,1)], clock 2.   (clock in (end, 2*end), or one block with end != 0: None, as promised.)
-//         unguarded paths (all observed on the real crate, debug and release):
-//           A  branch.rs:765/926  `Nested::<TextRef>::new(ID(1,5)).get(&txn)`, `BranchID::Nested(id).get_branch(&txn)`, `Hook::get`
-//              (doc comment: None when "not yet present ... due to missing update")
-//           B  transaction.rs:1340 split_by_snapshot: `text.diff_range(&mut txn, Some(&txn.snapshot()), None, ..)` with the
-//              document's OWN snapshot looks up clock == end + 1: panics when the client's list is [(0,1)] or [(0,1),(1,1)];
-//              id_set.rs:559 `Blocks::next` with a snapshot delete set beyond the local clock
-//           D  gc.rs:39  `txn.gc(Some(&ds))` with an id set beyond the local clock
-//           E  sticky_index.rs:291/300 StickyIndex::get_item (weak links): `LinkSource::to_string`, and REMOTELY: an honest update
-//              that quotes a nested array the receiver has not seen (update.rs:418 checks `is_missing` for Relative scopes only)
-//         also seen: store.rs:182 `write_blocks_to`: `clock - 1` with a snapshot clock 0 (own snapshot of a doc whose list
-//         starts with a Skip: get_state_vector lowers the entry to 0) -> subtract overflow / find_index(u32::MAX) (case C).
-//  F-BS2  a GC block of length 0 from the wire is pushed into the store (push's `block.ok()` is not established by
-//         integrate_gc: `Update::decode_block` accepts `len == 0`, `Update::integrate` hands it over).
-//         obligation (expected to fail): blockstore::TransactionMut.integrate_gc::pre [block.ok()].  Input: update v1 bytes
-//         [1,1,7,0,0,0,0] applied to an empty doc, then `encode_diff_v1(&StateVector::default())`: `Block::clock_range`
-//         (block.rs:267, `r.clock + r.len - 1`) -> "attempt to subtract with overflow" in builds with overflow checks; release
-//         builds do not panic (the store then holds an empty block: list_wf is broken).  With `offset < gc.len` required the
-//         function verifies.
-//  OBSERVATION  blocks integrated BEYOND a Skip are not offered to a remote whose clock is at or above the first gap
+// FINDINGS: none open.  History (reproducer of the PRE-REPAIR behaviour: units/blockstore/repro/main.rs -- a throw-away cargo
+//   project with `yrs = { path = "/repo/yrs", features = ["weak"] }`, `[workspace]`, offline: copy /verif/witness/Cargo.lock):
+//  F-BS1  (REPAIRED, ee1ac52) find_index panicked for clocks OUTSIDE the list -- [(0, len 1)] and clock != 0: division by zero;
+//         >= 2 blocks and clock >= 2 * end: first probe out of bounds -- reachable through `Nested::get` / `BranchID::get_branch`,
+//         `diff_range` with the document's own snapshot, `txn.gc(Some(&ds))`, weak links (also from an honest remote update).
+//         The obligation `BlockStore.get_block::pre [fi_safe]` of the earlier version of this unit is gone: find_index is total.
+//  F-BS2  (REPAIRED, 86c3405) a GC block of length 0 from the wire was pushed into the store (update v1 bytes [1,1,7,0,0,0,0],
+//         then `encode_diff_v1`: subtract overflow in `Block::clock_range` in builds with overflow checks).
+//         Also repaired (c250b7b): `write_blocks_to` computed `clock - 1` for a snapshot clock 0.
+//  OBSERVATIONS  (a) blocks integrated BEYOND a Skip are not offered to a remote whose clock is at or above the first gap
 //         (`lemma_listed_iff`): store Item[0,5) Skip[5,8) Item[8,10), remote clock 6 -> nothing is written for the client.
+//         (b) `write_blocks_to`: `blocks.clock() + 1` overflows (builds with overflow checks) for a client whose clock is exactly
+//         u32::MAX (a block that ends at the last clock); stated as a domain restriction.
 //
 // STAND-IN TYPES (everything else is extracted verbatim from /repo)
 //   ClientID        opaque ordered value with structural equality (real: `ClientID(NonZeroU64)`, derived Eq/Hash/Ord).
@@ -152,7 +141,9 @@
 //   the or-pattern of BlockSlice::trim_start split in two arms (as in unit header), `s.encode(encoder)` ->
 //   `E::encode_item_slice(s, encoder)`, `self.skips.iter()` -> the BTreeMap iterator it wraps and `Ranges::clock_start` ->
 //   `IdRanges::clock_start` (accessor bodies checked), `impl From<ItemPtr> for ItemSlice` emitted as an inherent fn,
-//   in the lifted `find_index_step`: `return Some(mid)` -> `return (Some(mid), left, right, mid)`.
+//   `for (&client_id, &clock) in sv.iter()` with the two bindings copied out (no reference patterns), in the lifted
+//   `find_index_step`: `return Some(mid)` -> `return (Some(Some(mid)), left, right, mid)` and `mid.checked_sub(1)?` -> the match it
+//   abbreviates.
 //
 // NOT INGESTED: squash_left / squash_left_range_compaction (ItemPtr surgery through raw pointers), split_block / get_item /
 //   get_item_clean_* (ItemPtr), iter / iter_mut (std iterator newtypes), Display/Debug impls.
